@@ -18,11 +18,21 @@
    offending token (C16_same_tokens_same_result).  The parser, cst_to_ast, validate_ast, the automaton, the
    table and the emitter are each shown to commute with erasing every stored position
    (Front/Positions.v, Ast/Positions.v, Emit/Positions.v).
-   NOT proved: the actual position map of a non-lexical error after a re-layout (the theorem
-   compares errors with positions erased).  Decided per pair by the check (source vs random
-   re-layout through the crate, results compared modulo the hash line / position map). *)
+   AND the exact position map (PosMapProofs.v): the positions the tokens of a source store are
+   strictly increasing, so between two layouts of the same tokens there is a function pf taking
+   each stored position of the first to that of the second (C16_a_relayout_has_a_position_map);
+   and for EVERY such pf, `generate` of the second text is `generate` of the first with pf
+   applied to every position the error value carries (name clashes, undefined symbols, case
+   errors, the grammar attached to a table conflict), the emitted text being identical — so an
+   error carries nothing but stored positions of tokens — while a syntax error is reported at
+   the same token, with that token's own span and text in its own source, or at the end of either
+   source (C16_errors_move_with_their_tokens).  The model is shown to commute with an arbitrary
+   position map stage by stage (Front/PosMap.v, Ast/PosMap.v, Emit/PosMap.v), and the
+   automaton construction and the emitter to return no error value (Build/NoErr.v, Emit/NoErr.v).
+   The check still compares, per pair, source vs random re-layout through the crate (results
+   compared modulo the hash line / the position map). *)
 From Coq Require Import List NArith.
-From Kiki Require Import Base.Ord Base.Chars Data Lex.Model Lex.Proofs Lex.Spec LR.Driver Front.Parse Emit.Positions Front.Positions Pipeline PositionsProofs.
+From Kiki Require Import Base.Ord Base.Chars Data Lex.Model Lex.Proofs Lex.Spec LR.Driver Front.Parse Emit.Positions Front.Positions Emit.PosMap Front.PosMap Pipeline PositionsProofs PosMapProofs.
 
 Theorem C16_whitespace_run_is_skipped : forall src t (l : list (N * char)) rest,
   tz_state t = LMain -> Forall (fun p => is_whitespace (snd p) = true) l ->
@@ -57,6 +67,34 @@ Theorem C16_same_tokens_same_result : forall ho digest src1 src2 toks1 toks2,
   rerase same (generate_model ho digest src1) = rerase same (generate_model ho digest src2).
 Proof. exact same_tokens_same_result_always. Qed.
 
+Theorem C16_a_relayout_has_a_position_map : forall src1 src2 toks1 toks2,
+  tokenize src1 = Ok toks1 -> tokenize src2 = Ok toks2 -> map erase_tok toks1 = map erase_tok toks2 ->
+  exists pf, toks2 = map (pm_tok pf) toks1.
+Proof. exact position_map_exists. Qed.
+Theorem C16_errors_move_with_their_tokens : forall pf ho digest src1 src2 toks1,
+  tokenize src1 = Ok toks1 -> tokenize src2 = Ok (map (pm_tok pf) toks1) ->
+  match parse token_kind kiki_ptable (front_fuel (length toks1)) toks1 with
+  | OReject (Some t) =>
+      In t toks1 /\
+      generate_model ho digest src1 = Err (EParse (tok_pos t) (lexeme t) (tok_pos t + blen (lexeme t))%N) /\
+      generate_model ho digest src2 =
+        Err (EParse (tok_pos (pm_tok pf t)) (lexeme t) (tok_pos (pm_tok pf t) + blen (lexeme t))%N)
+  | OReject None =>
+      generate_model ho digest src1 = Err (EParse (blen src1) nil (blen src1)) /\
+      generate_model ho digest src2 = Err (EParse (blen src2) nil (blen src2))
+  | _ => generate_model ho digest src2 = rpm pf same (generate_model ho digest src1)
+  end.
+Proof. exact positions_follow_the_tokens. Qed.
+(* the hypotheses are satisfiable with a map that is not the identity: a leading space *)
+Example C16_position_map_example :
+  let src1 := s2l "start A struct A{x:$Y} terminal T{$X:()}" in let src2 := s2l " start  A struct A{x:$Y} terminal T{$X:()}" in
+  exists toks1 pf, tokenize src1 = Ok toks1 /\ tokenize src2 = Ok (map (pm_tok pf) toks1) /\
+    generate_model ho_id nil src1 = Err (EUndefinedTerminal (s2l "Y") 20) /\ generate_model ho_id nil src2 = Err (EUndefinedTerminal (s2l "Y") 22).
+Proof.
+  cbv zeta. eexists. exists (fun p => if N.eqb p 0 then 1 else p + 2)%N. split; [vm_compute; reflexivity|]. split; vm_compute; auto.
+Qed.
+Print Assumptions C16_a_relayout_has_a_position_map.
+Print Assumptions C16_errors_move_with_their_tokens.
 Print Assumptions C16_whitespace_run_is_skipped.
 Print Assumptions C16_same_tokens_same_result.
 Print Assumptions C16_tokenizer_is_lex.
